@@ -2,6 +2,7 @@ package rules
 
 import (
 	"fmt"
+	"go/constant"
 	"go/token"
 	"strings"
 
@@ -161,6 +162,100 @@ func r11suci(c *core.Ctx) {
 				continue
 			}
 			c.Check(check(bits, w), R, key, st.Pos(), fmt.Sprintf("hi=%s lo=%s", w.hi, w.lo), "octet %d (%s) must be digit %s in bits 7..4 and digit %s in bits 3..0; is %s", k, side, w.hi, w.lo, bits.Describe())
+		}
+	}
+	// loop form: Buffer[a*i+b] = hex(S[..])<<4 | hex(S[..]) inside a counted loop with
+	// constant bounds, where S may be a merge of per-MNC-length digit sequences. The
+	// loop is unrolled and the merge resolved per MNC length (Pather.Bind); every
+	// (length, iteration) pair is one octet obligation, exactly as for the
+	// constant-index form.
+	sideOfPred := func(ph *ssa.Phi, i int) string {
+		pred := ph.Block().Preds[i]
+		switch {
+		case pred == mncIf && ph.Block() == t3:
+			return "mnc3"
+		case pred == mncIf && ph.Block() == t2:
+			return "mnc2"
+		case len(t3.Preds) == 1 && t3.Dominates(pred):
+			return "mnc3"
+		case len(t2.Preds) == 1 && t2.Dominates(pred):
+			return "mnc2"
+		}
+		return ""
+	}
+	for _, l := range loopBounds(fn) {
+		if !l.initOK || !l.limitOK || l.step <= 0 || (l.op != token.LSS && l.op != token.LEQ) {
+			continue
+		}
+		hi := l.limit
+		if l.op == token.LEQ {
+			hi++
+		}
+		if (hi-l.init)/l.step > 16 || hi <= l.init {
+			continue
+		}
+		for _, b := range fn.Blocks {
+			if b == l.header || !l.header.Dominates(b) || !core.Reaches(b, l.header) {
+				continue
+			}
+			for _, in := range b.Instrs {
+				st, ok := in.(*ssa.Store)
+				if !ok {
+					continue
+				}
+				ia, isIA := st.Addr.(*ssa.IndexAddr)
+				if !isIA || p.Path(ia.X) != bufPrefix {
+					continue
+				}
+				if _, isConst := core.ConstInt(ia.Index); isConst {
+					continue
+				}
+				for _, side := range []string{"mnc3", "mnc2"} {
+					for iv := l.init; iv < hi; iv += l.step {
+						bind := map[ssa.Value]ssa.Value{l.phi: ssa.NewConst(constant.MakeInt64(iv), l.phi.Type())}
+						for _, pb := range fn.Blocks {
+							for _, pin := range pb.Instrs {
+								ph, isPhi := pin.(*ssa.Phi)
+								if !isPhi {
+									break
+								}
+								for i := range ph.Edges {
+									if sideOfPred(ph, i) == side {
+										bind[ph] = ph.Edges[i]
+									}
+								}
+							}
+						}
+						ba2 := core.NewBitAnalyzer(fn)
+						ba2.AssumeFn = isHexCall
+						ba2.P.Bind = bind
+						var k int
+						if n, _ := fmt.Sscanf(ba2.P.Path(st.Addr), bufPrefix+"[%d]", &k); n != 1 {
+							c.SoftUndecided("EncodeSuci: index of a Buffer store inside a counted loop does not fold to a constant (%s)", ba2.P.Path(st.Addr))
+							continue
+						}
+						if k < 1 || k > 3 {
+							continue
+						}
+						w, okW := map[string]map[int]octet{"mnc3": want3, "mnc2": want2}[side][k]
+						if k == 1 {
+							w, okW = wantCommon[1], true
+						}
+						key := fmt.Sprintf("stgutg.EncodeSuci:%s:octet%d", side, k)
+						if found[fmt.Sprintf("%s:%d", side, k)] {
+							c.Fail(R, key, st.Pos(), "PLMN octet %d is written more than once for a %s-digit MNC", k, side[3:])
+							continue
+						}
+						found[fmt.Sprintf("%s:%d", side, k)] = true
+						if !okW {
+							c.Fail(R, key, st.Pos(), "unexpected store to PLMN octet %d on the %s path", k, side)
+							continue
+						}
+						bits := ba2.Bits(st.Val)
+						c.Check(check(bits, w), R, key, st.Pos(), fmt.Sprintf("hi=%s lo=%s", w.hi, w.lo), "octet %d (%s, loop iteration %d) must be digit %s in bits 7..4 and digit %s in bits 3..0; is %s", k, side, iv, w.hi, w.lo, bits.Describe())
+					}
+				}
+			}
 		}
 	}
 	for _, need := range []string{"common:1", "mnc3:2", "mnc3:3", "mnc2:2", "mnc2:3"} {
